@@ -31,7 +31,7 @@ def Conc.init (st : BA) (ws : List Op) : Conc := ⟨st, ws.map (fun _ => Pc.star
 
 def Conc.stepThr (ws : List Op) (s : Conc) (i : Nat) : Conc :=
   match ws[i]?, s.pcs[i]? with
-  | some w, some .start =>
+  | some _, some .start =>
     if s.st.frozen then { s with pcs := s.pcs.set i .done, errs := s.errs.set i (some "TypeError") }
     else { s with pcs := s.pcs.set i .atLock }
   | some w, some .atLock =>
